@@ -22,7 +22,7 @@ ENTRIES = {
     "C26": {
         "text": "TLC explores all response schedules of the session model for scaled constants and checks the "
                 "statement's monitor; recorded runs of the real HeaderSession under seeded adversarial responders "
-                "(lengths to 300 quick / 2000 thorough) are validated event by event by Trace_HeaderSession with the "
+                "(lengths to 700 quick / 2000 thorough) are validated event by event by Trace_HeaderSession with the "
                 "real constants: every request must be the model's, non-empty, <= 64, within not-yet-received "
                 "heights; a finished session must return every height once in ascending order.",
         "design_ref": "7 C26, A.4",
@@ -52,7 +52,7 @@ def run(ck):
               required_actions=["Start", "Respond", "RespondHxErr", "RespondFatal", "Finish"], timeout=3000)
     if ck.prop == "C26":
         trace = f"{ck.work}/trace.ndjson"
-        runs, maxlen = (40, 300) if ck.quick else (300, 2000)
+        runs, maxlen = (45, 700) if ck.quick else (300, 2000)   # > 512 so that more than 8 batches exist
         s = ck.harness(hb, ["record", "session", "--seed", ck.seed, "--out", trace, "--runs", runs,
                             "--maxlen", maxlen], "record", timeout=3000)
         p = s["props"]["C26"]
